@@ -2,6 +2,4 @@ package main
 
 import "verif/checker/internal/report"
 
-func runMutant(prop, name string) int                  { return 2 }
 func thorough(id string, p *Property, run *report.Run) {}
-func runControls(id, tier string) []report.Control     { return nil }
